@@ -1,7 +1,11 @@
 package checks
 
 import (
+	"regexp"
+	"strings"
 	"time"
+
+	"verif/engine/explore"
 
 	"verif/scen/teardown"
 )
@@ -72,4 +76,73 @@ func C19(tier string) int {
 	return code
 }
 
-func init() { Registry["C19"] = C19 }
+// C19race is run by ./check with a -race build of this harness: the tear-down configurations and the concurrent
+// parties of the interleaving part are executed free-running (no gates, no held updates: the explorer's hand-offs
+// would be happens-before edges that blind the detector); the race detector halts the worker at the first report,
+// which the enumeration driver attributes to the case and reports with the detector's output.
+func C19race(tier string) int {
+	states := []string{"selected", "idle", "inflight"}
+	actions := []string{"logout", "drop", "removeuser", "close"}
+	var cases []any
+	for _, a := range actions {
+		for _, s1 := range states {
+			for _, s2 := range states {
+				cases = append(cases, teardown.Case{States: []string{s1, s2}, Action: a})
+			}
+		}
+	}
+	cmd1 := []string{`STORE 2 +FLAGS (\Seen)`, `EXPUNGE`, `APPEND`, `MOVE 2 other`, `FETCH 2 (BODY[])`, `CLOSE`, `SELECT other`}
+	cmd2 := []string{"", `STORE 3 +FLAGS (\Flagged)`, `EXPUNGE`, `NOOP`}
+	var cc []any
+	for _, c1 := range cmd1 {
+		for _, td := range []string{"drop1", "drop2", "logout2", "removeuser", "close"} {
+			for _, cn := range []string{"", "created", "deleted"} {
+				for _, c2 := range cmd2 {
+					if c2 != "" && td == "logout2" {
+						continue
+					}
+					if tier != "thorough" && c2 != "" && cn != "" {
+						continue
+					}
+					cc = append(cc, teardown.ConcCase{Cmd1: c1, Cmd2: c2, Conn: cn, Teardown: td, Free: true})
+				}
+			}
+		}
+	}
+	raceSig := func(stderr string) (string, string) {
+		if i := strings.Index(stderr, "WARNING: DATA RACE"); i >= 0 {
+			return "data-race", raceSignature(stderr[i:])
+		}
+		return "CRASH", explore.CrashSig(stderr)
+	}
+	rule := "free-running executions under the Go race detector (GORACE halt_on_error): tear-down configurations and concurrent parties (command on session 1, optional command on session 2, optional connector update, tear-down action), each party set 4 times; a report is attributed to its case by re-running; distinct = distinct (case, completion statuses). Supporting pass, not an exhaustive one: the detector only sees the schedules the Go scheduler happens to produce"
+	return RunEnumMerge("C19", "race", EnumSpec{Prop: "C19", Level: "exploration", Budget: 10 * time.Minute, Call: "c19", Cases: cases, Chunk: 3, Rule: rule, CrashSig: raceSig,
+		Assume: []string{"race pass: a data race is reported only if the detector observes it in one of the free-running executions; absence of a report is not a proof of race freedom"}},
+		EnumSpec{Prop: "C19", Level: "exploration", Call: "c19conc", Cases: cc, Chunk: 2, Rule: rule, CrashSig: raceSig})
+}
+
+var raceFrame = regexp.MustCompile(`(?m)^  (github\.com/ProtonMail/gluon\S*)\(\)$`)
+
+// raceSignature names a race by the innermost gluon functions of its two accesses.
+func raceSignature(report string) string {
+	parts := strings.SplitN(report, "Previous ", 2)
+	first, second := "?", "?"
+	if m := raceFrame.FindStringSubmatch(parts[0]); m != nil {
+		first = strings.TrimPrefix(m[1], "github.com/ProtonMail/gluon")
+	}
+	if len(parts) > 1 {
+		body := parts[1]
+		if i := strings.Index(body, "Goroutine "); i > 0 {
+			body = body[:i]
+		}
+		if m := raceFrame.FindStringSubmatch(body); m != nil {
+			second = strings.TrimPrefix(m[1], "github.com/ProtonMail/gluon")
+		}
+	}
+	if second < first {
+		first, second = second, first
+	}
+	return first + " x " + second
+}
+
+func init() { Registry["C19"] = C19; Registry["C19race"] = C19race }
